@@ -128,4 +128,18 @@ Gone(W, l, qry) ==       \* tasks that are no longer members afterwards
     IF l.kind \in {"preds", "succs"} THEN {} ELSE
     LET cand == IF l.kind = "wbs" THEN DfsQ(W, W.roots) ELSE ListOf(W, l)
     IN  UNION {UnderQ(W, m) : m \in RanQ(Select(W, cand, qry))}
+---------------------------------------------------------------------------
+(* The list protocol beside queries (not part of C18; conformance is reported as drift):        *)
+(* order_by(key, reverse) is a stable sort of the list by an integer attribute; reading an       *)
+(* attribute of a list gives the column of values (None where a task lacks it); index(t) is the   *)
+(* 0-based position.                                                                              *)
+KeyInt(W, t, key) == IF key = "id" THEN W.ids[t] ELSE W.attrs[t][key].v
+OrderBy(W, s, key, rev) ==
+    LET K(j) == KeyInt(W, s[j], key)
+        Rank(j) == Cardinality({i \in DOMAIN s : IF rev THEN K(i) > K(j) ELSE K(i) < K(j)})
+                   + Cardinality({i \in DOMAIN s : i < j /\ K(i) = K(j)}) + 1
+    IN  [r \in DOMAIN s |-> s[CHOOSE j \in DOMAIN s : Rank(j) = r]]
+Column(W, s, a) == [i \in DOMAIN s |-> ValueOf(W, s[i], a)]
+PositionIn(s, t) == IF \E i \in DOMAIN s : s[i] = t THEN (CHOOSE i \in DOMAIN s : s[i] = t /\ \A j \in DOMAIN s : s[j] = t => i <= j) - 1
+                    ELSE -1
 =============================================================================
